@@ -57,11 +57,15 @@ StepSys(e) == /\ Check(Le3(e.before, e.res) /\ Le3(e.res, e.after), "system_cloc
 \* ZonedClock over the fake clock with a fixed offset (seconds) and a calendar id:
 \* same instant as the wrapped clock (a read of it), local = instant + offset, parts retained
 StepZoned(e) ==
-  LET o == C!Outcome("read", <<>>) IN
+  LET o == C!Outcome("read", <<>>)
+      loc == Add3(o.res, OfSeconds(e.offset))
+  IN
   /\ Check(o.ok, "zoned_clock_read_raises")
-  /\ Check(e.instant = o.res, "zoned_clock_instant_is_wrapped_clock_instant")
-  /\ Check(e.local = Add3(o.res, OfSeconds(e.offset)), "zoned_clock_local_is_instant_plus_offset")
+  /\ Check(e.has_instant => e.instant = o.res, "zoned_clock_instant_is_wrapped_clock_instant")
+  /\ Check(e.has_day => e.local[1] = loc[1], "zoned_clock_local_date_is_instant_plus_offset")
+  /\ Check(e.has_time => (e.local[2] = loc[2] /\ e.local[3] = loc[3]), "zoned_clock_local_time_is_instant_plus_offset")
   /\ Check(e.got_offset = e.offset /\ e.got_cal = e.cal /\ e.got_zone = e.zone, "zoned_clock_keeps_zone_and_calendar")
+  \* each getter consults the wrapped clock exactly once (the model is stepped by one read)
   /\ now' = o.now /\ auto' = o.auto
 
 Next == /\ l <= Len(Events)
